@@ -13,6 +13,7 @@ Section OrdFacts.
   Variable rfree : rule -> bool.
   Variable tfree : kind -> bool.
   Variable xr : rule -> list (key * key).
+  Variable fo : rule -> list key.
   Variable fresh : nat -> nat -> list X.          (* content a finished node adds of its own: counter before, after *)
 
   Definition ciids (items : list (key * value)) : list X := flat_map ic items.
@@ -92,12 +93,17 @@ Section OrdFacts.
     | KNone => True
     end.
 
+  (* of a first-only key, only the first item carries content *)
+  Definition fo_inv (items : list (key * value)) (k : key) : Prop :=
+    match kfilter k items with [] => True | _ :: rest => flat_map ic rest = [] end.
+
   Definition ccore (r : rule) (st : pstate) (n : node) : Prop :=
     node_rt n = KR r
     /\ ciids (node_items n) = cgroups (pat r) (node_items n)
     /\ seg_ok (pat r) st (node_items n)
     /\ Forall citem_ok (node_items n)
-    /\ Forall (fun pr => kfilter (fst pr) (node_items n) = [] \/ kfilter (snd pr) (node_items n) = []) (xr r).
+    /\ Forall (fun pr => kfilter (fst pr) (node_items n) = [] \/ kfilter (snd pr) (node_items n) = []) (xr r)
+    /\ Forall (fo_inv (node_items n)) (fo r).
   Definition cnrel (af : aframe) (n : node) : Prop :=
     ccore (af_rule af) (af_st af) n
     /\ (af_line af = true -> match hdr_line (af_rule af) with Some k => has_line n k | None => True end)
@@ -127,14 +133,21 @@ Section OrdFacts.
   Lemma ccore_add r st cur q v st' :
     ccore r st cur -> citem_ok (q, v) ->
     xr_ok pat xr (mk_aframe r st false false) q = true ->
+    fo_ok pat fo (mk_aframe r st false false) q = true ->
     match pindex (pat r) q with
     | Some _ => pstep (pat r) st q = Some st'
     | None => ic (q, v) = [] /\ st' = st
     end ->
     ccore r st' (node_add cur q v).
   Proof.
-    intros (Rt & A & S & F0 & Xo) Iv Xk Hs. unfold ccore. rewrite node_rt_add', node_items_add.
+    intros (Rt & A & S & F0 & Xo & Fi) Iv Xk Fk Hs. unfold ccore. rewrite node_rt_add', node_items_add.
     split; [exact Rt|].
+    assert (Fn : Forall (fo_inv (node_items cur ++ [(q, v)])) (fo r)).
+    { rewrite Forall_forall in *. intros k Hin. specialize (Fi _ Hin). unfold fo_inv in *. rewrite kfilter_snoc. cbn [fst].
+      destruct (key_beq q k) eqn:E; [|now rewrite app_nil_r].
+      apply key_beq_eq in E. subst k. unfold fo_ok in Fk. cbn [af_rule af_st] in Fk.
+      assert (Ex : existsb (key_beq q) (fo r) = true) by (apply existsb_exists; exists q; split; [exact Hin | apply key_beq_refl]).
+      rewrite Ex in Fk. cbn in Fk. rewrite (abs_empty_sound _ _ _ _ S Fk). reflexivity. }
     assert (Xn : Forall (fun pr => kfilter (fst pr) (node_items cur ++ [(q, v)]) = [] \/ kfilter (snd pr) (node_items cur ++ [(q, v)]) = []) (xr r)).
     { unfold xr_ok in Xk. cbn [af_rule af_st] in Xk. rewrite forallb_forall in Xk. rewrite Forall_forall in *. intros [k1 k2] Hin.
       specialize (Xo _ Hin). specialize (Xk _ Hin). cbn [fst snd] in *. apply andb_prop in Xk as [X1 X2]. rewrite !kfilter_snoc. cbn [fst].
@@ -147,7 +160,7 @@ Section OrdFacts.
     assert (Fa : Forall citem_ok (node_items cur ++ [(q, v)])) by (apply Forall_app; split; [exact F | constructor; [exact Iv | constructor]]).
     destruct (pindex (pat r) q) as [[pos many]|] eqn:Px.
     - destruct (pstep_spec _ _ _ _ _ _ Px Hs) as (-> & Lp & Hm).
-      split; [|split; [|split; [exact Fa | exact Xn]]].
+      split; [|split; [|split; [exact Fa | split; [exact Xn | exact Fn]]]].
       + rewrite ciids_snoc, A. symmetry. apply (cgroups_snoc_in _ (Hnodup _) _ _ _ pos many Px).
         intros k' pos' m' Hp' L. apply (S k' pos' m' Hp'). left. lia.
       + intros q' pos' many' Hp'. rewrite kfilter_snoc. cbn [fst snd].
@@ -156,7 +169,7 @@ Section OrdFacts.
           intros Em. specialize (Hm Em). destruct (S q pos many Px) as [S1 _]. rewrite (S1 Hm). cbn. lia.
         * rewrite app_nil_r. destruct (S q' pos' many' Hp') as [S1 S2]. split; [|exact S2].
           intros [C|[C C']]; [apply S1; left; lia | discriminate].
-    - destruct Hs as [Hv ->]. split; [|split; [|split; [exact Fa | exact Xn]]].
+    - destruct Hs as [Hv ->]. split; [|split; [|split; [exact Fa | split; [exact Xn | exact Fn]]]].
       + rewrite ciids_snoc, Hv, app_nil_r, (cgroups_snoc_notin _ _ _ _ Px). exact A.
       + intros q' pos' many' Hp'. rewrite kfilter_snoc.
         assert (E : key_beq q q' = false).
@@ -164,12 +177,50 @@ Section OrdFacts.
         rewrite E, app_nil_r. apply (S q' pos' many' Hp').
   Qed.
 
+  Lemma cgroups_snoc_silent p items k v : ic (k, v) = [] -> cgroups p (items ++ [(k, v)]) = cgroups p items.
+  Proof.
+    intros Hv. induction p as [|[k0 m0] r IH]; cbn [cgroups]; [reflexivity|].
+    rewrite cgrp_snoc, IH. destruct (key_beq k k0); [now rewrite Hv, app_nil_r | now rewrite app_nil_r].
+  Qed.
+
+  (* adding a content-free item that does not advance the progress *)
+  Lemma ccore_silent r st cur q v :
+    ccore r st cur -> citem_ok (q, v) -> ic (q, v) = [] ->
+    o_silent pat xr (mk_aframe r st false false) q = Some st ->
+    ccore r st (node_add cur q v).
+  Proof.
+    intros (Rt & A & S & F0 & Xo & Fi) Iv Hv Os. unfold ccore. rewrite node_rt_add', node_items_add.
+    unfold o_silent in Os. cbn [af_rule af_st] in Os.
+    destruct (xr_ok pat xr (mk_aframe r st false false) q) eqn:Xk; [|discriminate].
+    split; [exact Rt|]. split; [|split; [|split; [|split]]].
+    - rewrite ciids_snoc, Hv, app_nil_r, cgroups_snoc_silent by exact Hv. exact A.
+    - intros q' pos' many' Hp'. rewrite kfilter_snoc. cbn [fst].
+      destruct (key_beq q q') eqn:E; [|rewrite app_nil_r; apply (S q' pos' many' Hp')].
+      apply key_beq_eq in E. subst q'. rewrite Hp' in Os.
+      destruct many'; [|discriminate]. cbn [andb] in Os.
+      destruct (abs_empty (pat r) st q) eqn:Ae; [discriminate|].
+      split; [|discriminate]. intros C. exfalso. unfold abs_empty in Ae. rewrite Hp' in Ae.
+      apply orb_false_iff in Ae as [A1 A2]. apply Nat.ltb_ge in A1.
+      destruct C as [C|[C1 C2]]; [lia|]. rewrite C2 in A2. cbn in A2. rewrite andb_true_r in A2. apply Nat.eqb_neq in A2. lia.
+    - apply Forall_app; split; [exact F0 | constructor; [exact Iv | constructor]].
+    - unfold xr_ok in Xk. cbn [af_rule af_st] in Xk. rewrite forallb_forall in Xk. rewrite Forall_forall in *. intros [k1 k2] Hin.
+      specialize (Xo _ Hin). specialize (Xk _ Hin). cbn [fst snd] in *. apply andb_prop in Xk as [X1 X2]. rewrite !kfilter_snoc. cbn [fst].
+      destruct (key_beq q k1) eqn:E1, (key_beq q k2) eqn:E2.
+      + exfalso. apply key_beq_eq in E1, E2. subst. pose proof (Hxr _ _ _ Hin) as Ir. rewrite key_beq_refl in Ir. discriminate.
+      + right. rewrite app_nil_r. apply (abs_empty_sound _ _ _ _ S X1).
+      + left. rewrite app_nil_r. apply (abs_empty_sound _ _ _ _ S X2).
+      + rewrite !app_nil_r. exact Xo.
+    - rewrite Forall_forall in *. intros k Hin. specialize (Fi _ Hin). unfold fo_inv in *. rewrite kfilter_snoc. cbn [fst].
+      destruct (key_beq q k) eqn:E; [|now rewrite app_nil_r].
+      destruct (kfilter k (node_items cur)) as [|kv0 rest]; [reflexivity|]. cbn [app]. rewrite flat_map_app, Fi. cbn. now rewrite Hv.
+  Qed.
+
   Lemma cnrel_weaken a b n : af_le a b = true -> cnrel a n -> cnrel b n.
   Proof.
-    unfold af_le. intros H ((Rt & A & S & F & Xo) & Hl & Hh).
+    unfold af_le. intros H ((Rt & A & S & F & Xo & Fi) & Hl & Hh).
     apply andb_prop in H as [H H4]. apply andb_prop in H as [H H3]. apply andb_prop in H as [H1 H2].
     apply rule_beq_eq in H1. apply ps_le_spec in H2.
-    unfold cnrel, ccore. rewrite <- H1. split; [split; [exact Rt|]; split; [exact A|]; split; [|split; [exact F | exact Xo]]|split].
+    unfold cnrel, ccore. rewrite <- H1. split; [split; [exact Rt|]; split; [exact A|]; split; [|split; [exact F | split; [exact Xo | exact Fi]]]|split].
     - intros k pos many Hp. destruct (S k pos many Hp) as [S1 S2]. split; [|exact S2].
       intros C. apply S1. destruct (af_st a) as [ja sa], (af_st b) as [jb sb]. cbn [fst snd] in *.
       destruct H2 as [H2|[H2 H2']]; [lia|]. destruct C as [C|[C C']]; [lia|].
@@ -196,12 +247,12 @@ Section OrdFacts.
   Lemma cnrel_fresh x : cnrel (mk_aframe x (0, false) false false) (Node (KR x) []).
   Proof.
     unfold cnrel, ccore. cbn [af_rule af_st af_line af_hdr node_rt node_items].
-    split; [|split; discriminate]. split; [reflexivity|]. split; [|split; [|split; [constructor | apply Forall_forall; intros pr _; now left]]].
+    split; [|split; discriminate]. split; [reflexivity|]. split; [|split; [|split; [constructor | split; [apply Forall_forall; intros pr _; now left | apply Forall_forall; intros k _; exact I]]]].
     - unfold ciids. cbn. symmetry. apply cgroups_empty. reflexivity.
     - intros k pos many Hp. split; [reflexivity | cbn; lia].
   Qed.
 
-  Lemma o_start k x stk stk' bstack : o_prod pat rfree tfree xr k (PS x) stk = Some stk' -> csrel stk bstack ->
+  Lemma o_start sil k x stk stk' bstack : o_prod pat rfree tfree xr fo sil k (PS x) stk = Some stk' -> csrel stk bstack ->
     csrel stk' (Node (KR x) [] :: bstack) /\ stack_c (Node (KR x) [] :: bstack) = stack_c bstack.
   Proof.
     intros D (nodes & root & E & F & R). cbn in D. destruct stk as [|f tl]; [discriminate|]. inversion D; subst stk'. split.
@@ -212,24 +263,31 @@ Section OrdFacts.
   (* ---- build ---- *)
   Definition bc (k : kind) (t : token) : list X := if kind_beq k KComment then [] else ic (KT k, VTok t).
 
-  Lemma o_build k t stk stk' b b' : o_prod pat rfree tfree xr k PB stk = Some stk' -> m_type t = Some k -> builder_build t b = BoOk b' ->
+  Lemma o_build sil k t stk stk' b b' : o_prod pat rfree tfree xr fo sil k PB stk = Some stk' -> m_type t = Some k -> builder_build t b = BoOk b' ->
+    (sil = true -> ic (KT k, VTok t) = []) ->
     csrel stk (b_stack b) -> csrel stk' (b_stack b') /\ b_idc b' = b_idc b /\ stack_c (b_stack b') = stack_c (b_stack b) ++ bc k t.
   Proof.
-    intros D Mt Bb (nodes & root & E & F & R). cbn in D. destruct stk as [|f tl]; [discriminate|].
+    intros D Mt Bb Hsil (nodes & root & E & F & R). cbn in D. destruct stk as [|f tl]; [discriminate|].
     unfold builder_build in Bb. rewrite Mt in Bb. unfold bc.
     destruct (kind_beq k KComment) eqn:Kc.
     - apply kind_beq_eq in Kc. subst k. inversion D; subst stk'. destruct (m_text t); [|discriminate]. inversion Bb; subst b'. cbn [b_stack b_idc].
       split; [exists nodes, root; auto | split; [reflexivity | now rewrite app_nil_r]].
-    - destruct (o_add pat xr f (KT k) (tfree k)) as [st'|] eqn:Oa; [|discriminate]. inversion D; subst stk'. clear D.
+    - destruct (if sil then o_silent pat xr f (KT k) else o_add pat xr fo f (KT k) (tfree k)) as [st'|] eqn:Oa; [|discriminate]. inversion D; subst stk'. clear D.
       assert (Bb' : match b_stack b with [] => BoCrash | cur :: stk0 => BoOk (mk_bstate (node_add cur (KT k) (VTok t) :: stk0) (b_comments b) (b_idc b)) end = BoOk b').
       { destruct k; try exact Bb. discriminate Kc. }
       clear Bb. inversion F as [|f0 n tl0 nodes' Hn F' E1 E2]; subst. rewrite E in Bb'. cbn [app] in Bb'. inversion Bb'; subst b'. cbn [b_stack b_idc].
       split; [|split; [reflexivity|]].
       + exists (node_add n (KT k) (VTok t) :: nodes'), root. split; [reflexivity|]. split; [|exact R]. constructor; [|exact F'].
         destruct Hn as (Co & Hl & Hh). unfold cnrel. cbn [af_rule af_st af_line af_hdr]. split; [|split].
-        * unfold o_add in Oa. destruct (xr_ok pat xr f (KT k)) eqn:Xk; [|discriminate].
-          apply (ccore_add _ _ _ _ _ _ Co); [cbn; eauto | exact Xk|].
-          destruct (pindex (pat (af_rule f)) (KT k)); [exact Oa|]. destruct (tfree k) eqn:Tf; [|discriminate]. inversion Oa. split; [apply Htfree, Tf | reflexivity].
+        * destruct sil.
+          -- assert (Es : st' = af_st f).
+             { unfold o_silent in Oa. destruct (xr_ok pat xr f (KT k)); [|discriminate].
+               destruct (pindex (pat (af_rule f)) (KT k)) as [[pos many]|]; [|now inversion Oa].
+               destruct (many && negb (abs_empty (pat (af_rule f)) (af_st f) (KT k))); now inversion Oa. }
+             subst st'. apply (ccore_silent _ _ _ _ _ Co); [cbn; eauto | apply Hsil; reflexivity | exact Oa].
+          -- unfold o_add in Oa. destruct (xr_ok pat xr f (KT k)) eqn:Xk; [|discriminate]. destruct (fo_ok pat fo f (KT k)) eqn:Fk; [|discriminate]. cbn [andb] in Oa.
+             apply (ccore_add _ _ _ _ _ _ Co); [cbn; eauto | exact Xk | exact Fk|].
+             destruct (pindex (pat (af_rule f)) (KT k)); [exact Oa|]. destruct (tfree k) eqn:Tf; [|discriminate]. inversion Oa. split; [apply Htfree, Tf | reflexivity].
         * intros Ef. unfold is_hdr_line in Ef. destruct (hdr_line (af_rule f)) as [k'|] eqn:Hk; [|exact I].
           apply orb_prop in Ef as [Ef|Ef]; [apply has_line_snoc, Hl, Ef|].
           apply kind_beq_eq in Ef. subst k'.
@@ -254,7 +312,7 @@ Section OrdFacts.
     unfold is_header in Rl. destruct (hdr_line (af_rule af)); [apply Hl, Rl; reflexivity | exact I].
   Qed.
 
-  Lemma o_end k x stk stk' b b' : o_prod pat rfree tfree xr k (PE x) stk = Some stk' -> builder_end x b = BoOk b' ->
+  Lemma o_end sil k x stk stk' b b' : o_prod pat rfree tfree xr fo sil k (PE x) stk = Some stk' -> builder_end x b = BoOk b' ->
     csrel stk (b_stack b) ->
     csrel stk' (b_stack b') /\ b_idc b <= b_idc b' /\ stack_c (b_stack b') = stack_c (b_stack b) ++ fresh (b_idc b) (b_idc b').
   Proof.
@@ -263,7 +321,7 @@ Section OrdFacts.
     destruct (rule_beq x (af_rule f) && (negb (is_header x) || af_line f) && (negb (needs_header x) || af_hdr f)) eqn:C; [|discriminate].
     apply andb_prop in C as [C C3]. apply andb_prop in C as [C1 C2]. apply rule_beq_eq in C1. subst x.
     destruct tl as [|pf tl']; [discriminate|].
-    destruct (o_add pat xr pf (KR (af_rule f)) (rfree (af_rule f))) as [st'|] eqn:Oa; [|discriminate]. inversion D; subst stk'. clear D.
+    destruct (o_add pat xr fo pf (KR (af_rule f)) (rfree (af_rule f))) as [st'|] eqn:Oa; [|discriminate]. inversion D; subst stk'. clear D.
     inversion F as [|f0 n tl0 nodes0 Hn F0 E1 E2]; subst. inversion F0 as [|pf0 cur tl1 nodes1 Hc F1 E1 E2]; subst.
     assert (Rd : ready f).
     { split; intros Xe; rewrite Xe in *; cbn in *; assumption. }
@@ -276,8 +334,8 @@ Section OrdFacts.
     split; [|split; [exact Li|]].
     - exists (node_add cur (KR (af_rule f)) v :: nodes1), root. split; [reflexivity|]. split; [|exact R]. constructor; [|exact F1].
       destruct Hc as (Co & Hl & Hh). unfold cnrel. cbn [af_rule af_st af_line af_hdr]. split; [|split].
-      + unfold o_add in Oa. destruct (xr_ok pat xr pf (KR (af_rule f))) eqn:Xk; [|discriminate].
-        apply (ccore_add _ _ _ _ _ _ Co Iv Xk).
+      + unfold o_add in Oa. destruct (xr_ok pat xr pf (KR (af_rule f))) eqn:Xk; [|discriminate]. destruct (fo_ok pat fo pf (KR (af_rule f))) eqn:Fk; [|discriminate]. cbn [andb] in Oa.
+        apply (ccore_add _ _ _ _ _ _ Co Iv Xk Fk).
         destruct (pindex (pat (af_rule pf)) (KR (af_rule f))); [exact Oa|]. destruct (rfree (af_rule f)) eqn:Fr; [|discriminate]. inversion Oa.
         split; [|reflexivity]. rewrite Hv, (Hfresh _ _ _ _ _ _ Fr Hn Tn), app_nil_r, An, (Hrfree _ Fr). reflexivity.
       + intros Ef. specialize (Hl Ef). destruct (hdr_line (af_rule pf)); [apply has_line_snoc, Hl | exact I].
@@ -309,22 +367,22 @@ Section OrdFacts.
       end
     end.
 
-  Lemma o_steps k t : m_type t = Some k -> forall ps stk stk' b b',
-    o_prods pat rfree tfree xr k ps stk = Some stk' -> bsteps t ps b = Some b' -> csrel stk (b_stack b) ->
+  Lemma o_steps sil k t : m_type t = Some k -> (sil = true -> ic (KT k, VTok t) = []) -> forall ps stk stk' b b',
+    o_prods pat rfree tfree xr fo sil k ps stk = Some stk' -> bsteps t ps b = Some b' -> csrel stk (b_stack b) ->
     csrel stk' (b_stack b') /\ b_idc b <= b_idc b' /\ stack_c (b_stack b') = stack_c (b_stack b) ++ added k t ps b.
   Proof.
-    intros Mt. induction ps as [|p ps IH]; intros stk stk' b b' D B S; cbn in D, B; cbn [added].
+    intros Mt Hsil. induction ps as [|p ps IH]; intros stk stk' b b' D B S; cbn in D, B; cbn [added].
     - inversion D; inversion B; subst. split; [exact S|]. split; [lia | now rewrite app_nil_r].
-    - destruct (o_prod pat rfree tfree xr k p stk) as [s1|] eqn:D1; [|discriminate].
+    - destruct (o_prod pat rfree tfree xr fo sil k p stk) as [s1|] eqn:D1; [|discriminate].
       destruct (bop1 t p b) as [b1|] eqn:B1; [|discriminate].
       assert (Step : csrel s1 (b_stack b1) /\ b_idc b <= b_idc b1
                      /\ stack_c (b_stack b1) = stack_c (b_stack b) ++ match p with PB => bc k t | PE _ => fresh (b_idc b) (b_idc b1) | PS _ => [] end).
       { unfold bop1 in B1. destruct p as [x|x|].
         - unfold builder_start in B1. inversion B1; subst b1. cbn [b_stack b_idc].
-          destruct (o_start k x stk s1 (b_stack b) D1 S) as [S1 C1]. split; [exact S1|]. split; [lia | now rewrite C1, app_nil_r].
+          destruct (o_start sil k x stk s1 (b_stack b) D1 S) as [S1 C1]. split; [exact S1|]. split; [lia | now rewrite C1, app_nil_r].
         - destruct (builder_end x b) as [b2|e b2|] eqn:E2; inversion B1; subst. eapply o_end; eauto.
         - destruct (builder_build t b) as [b2|e b2|] eqn:E2; inversion B1; subst.
-          destruct (o_build k t stk s1 b b1 D1 Mt E2 S) as (S1 & I1 & C1). split; [exact S1|]. split; [lia | exact C1]. }
+          destruct (o_build sil k t stk s1 b b1 D1 Mt E2 Hsil S) as (S1 & I1 & C1). split; [exact S1|]. split; [lia | exact C1]. }
       destruct Step as (S1 & L1 & C1). destruct (IH _ _ _ _ D B S1) as (S2 & L2 & C2).
       split; [exact S2|]. split; [lia|]. rewrite C2, C1, app_assoc. reflexivity.
   Qed.
